@@ -35,7 +35,7 @@ ASSUMPTIONS = ["StubBrownian (stateless closed-form path) stands in for the Brow
 REAL_VS_STUB = {"real": ["sdeint, check_contract, BaseSDESolver.integrate, all solver step functions, interp",
                          "BrownianInterval (real-bm runs)"],
                 "stub": ["StubBrownian (stub-bm runs)", "RecordingBrownian proxy", "SDE zoo drift/diffusion"]}
-PROBES = ("variants_run", "on_grid_outputs", "on_grid_interior", "inside_outputs", "several_outputs_in_one_step", "ulp_before_grid",
+PROBES = ("variants_run", "via_sdeint_adjoint", "ts_dtype_differs", "on_grid_outputs", "on_grid_interior", "inside_outputs", "several_outputs_in_one_step", "ulp_before_grid",
           "ulp_after_grid", "dt_larger_than_gaps", "ts_as_list", "final_step_clipped", "horizon_on_grid", "f32", "real_bm",
           "stub_bm", "common_time_pairs")
 STATE_MEASURE = "distinct (solver, noise type, grid length, output-schedule pattern) tuples"
@@ -68,11 +68,13 @@ def gen_case(seed, tier, idx):
             else:
                 for f in sorted(rv.random() for _ in range(rv.choice([2, 3]))):
                     items.append({"kind": "inside", "k": k, "frac": f})
-        variants.append({"items": items, "as_list": rv.random() < 0.35})
+        variants.append({"items": items, "as_list": rv.random() < 0.35,
+                         "entry": "sdeint_adjoint" if rv.random() < 0.25 else "sdeint"})
     if rs.random() < 0.15:
         # dt larger than every gap: many outputs, one or two steps
         dt = (T - t0) * rs.choice([0.7, 1.0, 3.0])
     return {"solver": solver, "sde": spec, "dtype": dtype, "t0": fx(t0), "dt": fx(dt), "T": fx(T), "n_nominal": n,
+            "ts_dtype": rs.choice(["same", "same", "same", "float64", "float32"]),
             "bm": "real" if rs.random() < 0.2 else "stub", "bm_seed": rs.randrange(1 << 30), "variants": variants,
             "fault_rate": bm.gen_fault_rate(st.get("faults")), "fault_seed": rs.randrange(1 << 30)}
 
@@ -125,6 +127,8 @@ class Runner:
         self.case = case
         self.log = log
         self.tdt = stubs.DT[case["dtype"]]
+        # dtype of the time tensor: the state's dtype, or another one (ts given as a tensor of a different dtype)
+        self.tts = self.tdt if case.get("ts_dtype", "same") == "same" else stubs.DT[case["ts_dtype"]]
         self.spec = case["sde"]
         self.y0 = stubs.make_y0(self.spec, case["dtype"])
         self.fired = {"miss": 0, "drop": 0, "blackout": 0}
@@ -140,7 +144,7 @@ class Runner:
             plan = None
         else:
             t0, T = xf(case["t0"]), xf(case["T"])
-            ts = torch.tensor([t0, T], dtype=self.tdt)
+            ts = torch.tensor([t0, T], dtype=self.tts)
             inner = torchsde.BrownianInterval(t0=float(ts[0]), t1=float(ts[-1]), size=(B, m), dtype=self.tdt,
                                               entropy=case["bm_seed"], levy_area_approximation=levy,
                                               cache_size=45 if case["fault_seed"] % 2 else 2)
@@ -148,7 +152,7 @@ class Runner:
             seams.install_faulty_cache(inner, plan)
         return stubs.make_recorder(inner), plan
 
-    def run(self, times, as_list, tag):
+    def run(self, times, as_list, tag, entry="sdeint"):
         import random
         import torchsde
         case = self.case
@@ -160,13 +164,16 @@ class Runner:
             plan.begin_op([{"kind": "miss", "at": r.randrange(0, 400)} for _ in range(int(40 * case["fault_rate"]) + 1)] +
                           [{"kind": "drop", "at": r.randrange(0, 400)} for _ in range(int(40 * case["fault_rate"]) + 1)])
         self.n_variant += 1
-        ts = list(times) if as_list else torch.tensor(times, dtype=self.tdt)
+        # a list is converted to the state's dtype by the library, so the list form is only comparable when the time
+        # dtype is the state's dtype
+        ts = list(times) if (as_list and self.tts == self.tdt) else torch.tensor(times, dtype=self.tts)
         kw = {}
         if case["solver"]["options"]:
             kw["options"] = dict(case["solver"]["options"])
         try:
             with torch.no_grad():
-                ys = torchsde.sdeint(sde, self.y0, ts, bm=rec, method=case["solver"]["method"], dt=xf(case["dt"]), **kw)
+                fn = torchsde.sdeint_adjoint if entry == "sdeint_adjoint" else torchsde.sdeint
+                ys = fn(sde, self.y0, ts, bm=rec, method=case["solver"]["method"], dt=xf(case["dt"]), **kw)
         except Exception as e:  # noqa
             raise Violation(f"exception:{type(e).__name__}@{bm._where(e)}", {"variant": tag, "msg": str(e)[:200]}, tag)
         if plan is not None:
@@ -185,20 +192,23 @@ def run_case(case, keep_log=False):
     sde_time = 0.0
     R = Runner(case, log)
     tdt = R.tdt
+    tts = R.tts
+    probes["ts_dtype_differs"] = int(tts != tdt)
     f32 = case["dtype"] == "float32"
-    rtol = 1e-5 if f32 else 1e-12
+    # the interpolation weights are computed in the dtype of the time tensor, the states in the dtype of y0
+    rtol = 1e-5 if (f32 or tts == torch.float32) else 1e-12
     probes["f32"] = int(f32)
     probes["real_bm" if case["bm"] == "real" else "stub_bm"] = 1
     try:
         t0, T, dt = xf(case["t0"]), xf(case["T"]), xf(case["dt"])
-        tsv = torch.tensor([t0, T], dtype=tdt)
+        tsv = torch.tensor([t0, T], dtype=tts)
         t0, T = float(tsv[0]), float(tsv[1])
         if not t0 < T:
             raise SkipCase()
         ys0, trace0 = R.run([t0, T], False, "V0")
         B, d = R.spec["batch"], R.spec["d"]
         # the trace must be the LoopModel grid
-        model = loop_model_grid(t0, T, dt, tdt)
+        model = loop_model_grid(t0, T, dt, tts)
         grid = [trace0[0][0]] + [tb for (_, tb) in trace0] if trace0 else [t0]
         for i, (ta, tb) in enumerate(trace0):
             if ta != grid[i]:
@@ -233,8 +243,9 @@ def run_case(case, keep_log=False):
         pattern = []
         for vi, var in enumerate(case["variants"]):
             tag = f"V{vi + 1}"
-            times = resolve(var["items"], grid, tdt)
-            ys, trace = R.run(times, var["as_list"], tag)
+            times = resolve(var["items"], grid, tts)
+            ys, trace = R.run(times, var["as_list"], tag, var.get("entry", "sdeint"))
+            probes["via_sdeint_adjoint"] += int(var.get("entry") == "sdeint_adjoint")
             probes["variants_run"] += 1
             probes["ts_as_list"] += int(var["as_list"])
             if trace != trace0:
@@ -269,9 +280,9 @@ def run_case(case, keep_log=False):
                     sc = max(bm.maxabs(G[k]), bm.maxabs(G[k + 1]), 1.0)
                     probes["inside_outputs"] += 1
                     pat.append("i")
-                    if t == _nextafter(ga, 1, tdt) or t == _nextafter(ga, 2, tdt):
+                    if t == _nextafter(ga, 1, tts) or t == _nextafter(ga, 2, tts):
                         probes["ulp_after_grid"] += 1
-                    if t == _nextafter(gb, -1, tdt) or t == _nextafter(gb, -2, tdt):
+                    if t == _nextafter(gb, -1, tts) or t == _nextafter(gb, -2, tts):
                         probes["ulp_before_grid"] += 1
                     if bm.maxabs(y.double() - ref) > rtol * sc:
                         raise Violation("interpolation", {"variant": tag, "t": fx(t), "k": k, "w": w,
@@ -323,8 +334,12 @@ def simplify(case):
             c = copy.deepcopy(case)
             c["variants"][vi]["as_list"] = False
             yield c
-    for key, val in (("bm", "stub"), ("dtype", "float64"), ("fault_rate", 0.0)):
-        if case[key] != val:
+        if var.get("entry") == "sdeint_adjoint":
+            c = copy.deepcopy(case)
+            c["variants"][vi]["entry"] = "sdeint"
+            yield c
+    for key, val in (("bm", "stub"), ("dtype", "float64"), ("fault_rate", 0.0), ("ts_dtype", "same")):
+        if case.get(key) != val:
             c = copy.deepcopy(case)
             c[key] = val
             yield c
